@@ -184,6 +184,7 @@ class Spec:
     template_after_user: bool = False  # some link of the chain points to an element later in document order
     template_before_user: bool = False
     kinds: tuple = ()  # kinds along the chain, own first
+    flat_subpath_extends_bbox: bool = False  # objectBoundingBox only: a subpath without area (all points collinear) enlarges the box
 
     @property
     def inherits(self) -> bool:
@@ -247,7 +248,29 @@ def resolve(builder, grad_el, ctm, subs) -> Spec:
         raise _unsupported("degenerate gradient matrix")
     ident = all(abs(a - b) < 1e-12 for a, b in zip(ctm, render.IDENT))
     after, before, kinds = _chain_order(builder, grad_el)
-    return Spec(kind, units, spread, coords, stops, tuple(m), tuple(gt), bbox, chain_length(builder, grad_el), depth, sdepth, ident, tuple(pcts), tuple(ctm), after, before, kinds)
+    flat = False
+    if bbox is not None and len(subs) > 1:
+        solid = [s for s in subs if not _collinear(s)]
+        if len(solid) < len(subs):
+            bb2 = geom.tight_bounds(solid) if solid else None
+            flat = bb2 is None or any(abs(a - b) > 1e-9 for a, b in zip(bb2, bbox))
+    return Spec(kind, units, spread, coords, stops, tuple(m), tuple(gt), bbox, chain_length(builder, grad_el), depth, sdepth, ident, tuple(pcts), tuple(ctm), after, before, kinds, flat)
+
+
+def _collinear(sub) -> bool:
+    """True when all points of the subpath (control points included) lie on one line: it encloses no area."""
+    pts = [sub["start"]]
+    for seg in sub["segs"]:
+        if seg[0] == "A":
+            return False
+        pts.extend(p for p in seg[1:])
+    p0 = pts[0]
+    far = max(pts, key=lambda p: (p[0] - p0[0]) ** 2 + (p[1] - p0[1]) ** 2)
+    dx, dy = far[0] - p0[0], far[1] - p0[1]
+    L = math.hypot(dx, dy)
+    if L == 0:
+        return True
+    return all(abs((p[0] - p0[0]) * dy - (p[1] - p0[1]) * dx) <= 1e-9 * L * max(1.0, L) for p in pts)
 
 
 def _chain_order(builder, el):
